@@ -47,7 +47,7 @@ import (
 
 type c08Eff struct {
 	K    string `json:"k"`              // bad | on | log | auth
-	N    int    `json:"n,omitempty"`    // on: number of hooks; bad: 0 early (timeouts) 1 mid (gzip) 2 late (redir)
+	N    int    `json:"n,omitempty"`    // on: number of hooks; bad: 0 early (timeouts) 1 mid (gzip) 2 late (redir) 3 a bad `on` line
 	F    int    `json:"f,omitempty"`    // log / htpasswd file id
 	U    int    `json:"u,omitempty"`    // auth: user id
 	Size int    `json:"size,omitempty"` // log: rotate_size in MB
@@ -122,7 +122,7 @@ func c08Valid(mode string, c *c08Cfg, env map[int]c08Ht) bool {
 	if c.Parse != "" {
 		return false
 	}
-	if mode != "validate" {
+	if !c08DirectivesOnly(mode) {
 		// a validation stops after the directives: it never runs startup callbacks or listens
 		if len(c.Addrs) == 0 {
 			return false
@@ -138,7 +138,7 @@ func c08Valid(mode string, c *c08Cfg, env map[int]c08Ht) bool {
 		case "bad":
 			return false
 		case "log":
-			if !e.OK && mode != "validate" {
+			if !e.OK && !c08DirectivesOnly(mode) {
 				return false
 			}
 		case "auth":
@@ -242,6 +242,10 @@ func (ch *c08Child) render(c *c08Cfg) string {
 					lines = append(lines, "timeouts bogus")
 				case 1:
 					lines = append(lines, "gzip {\n\t\tbogus_subdirective\n\t}")
+				case 3:
+					// a bad line of the `on` directive after good ones: the directive registers nothing
+					lines = append(lines, fmt.Sprintf("on startup /bin/true c%d-a", c.ID), fmt.Sprintf("on shutdown /bin/true c%d-b", c.ID),
+						fmt.Sprintf("on no-such-event /bin/true c%d-c", c.ID))
 				default:
 					lines = append(lines, "redir / /elsewhere 999")
 				}
@@ -560,6 +564,8 @@ func (ch *c08Child) attempt(op *c08Op) (int, string) {
 			}
 		case "validate":
 			err = casket.ValidateAndExecuteDirectives(ch.input(text), nil, true)
+		case "execute":
+			err = casket.ValidateAndExecuteDirectives(ch.input(text), casket.VerifNewInstance("http"), false)
 		case "reload":
 			insts := casket.Instances()
 			if len(insts) == 0 {
@@ -793,7 +799,10 @@ func c08CfgTerm(c *c08Cfg) string {
 	return cApp("Build_cfg", cN(uint64(c.ID)), pf, cList(effs), cList(addrs))
 }
 
-var c08ModeTerm = map[string]string{"load": "Load", "validate": "Validate", "reload": "Reload", "sigusr1": "Sigusr1"}
+var c08ModeTerm = map[string]string{"load": "Load", "validate": "Validate", "reload": "Reload", "sigusr1": "Sigusr1", "execute": "Execute"}
+
+// c08DirectivesOnly: the attempt ends after the directives were executed (no startup callbacks, no listeners)
+func c08DirectivesOnly(mode string) bool { return mode == "validate" || mode == "execute" }
 
 func c08OpTerm(op *c08Op) string {
 	if op.Kind == "write" {
@@ -980,7 +989,7 @@ func c08Label(in *c08In, full, ref []c08Obs) string {
 			rmode = "restart"
 		}
 		stage, onBefore := c08Stage(op.Cfg, env)
-		if mode == "validate" && (stage == "startup" || strings.HasPrefix(stage, "listen")) {
+		if c08DirectivesOnly(mode) && (stage == "startup" || strings.HasPrefix(stage, "listen")) {
 			stage = "valid"
 		}
 		intended := stage
@@ -1044,7 +1053,7 @@ func c08Label(in *c08In, full, ref []c08Obs) string {
 					return "asif:res:" + ec + ":" + cause(op.Cfg)
 				}
 				return "asif:res:" + c08ErrClass(o)
-			case (mode == "load" || mode == "validate") && o.Res != 0:
+			case (mode == "load" || c08DirectivesOnly(mode)) && o.Res != 0:
 				return "valid-fails:" + mode + ":" + c08ErrClass(o)
 			case o.NInst != rf.NInst:
 				return "asif:instances"
@@ -1213,9 +1222,9 @@ func c08Run(in0 interface{}) Result {
 // ---------------------------------------------------------------------------------------------
 // generator
 
-var c08Faults = []string{"syntax", "unknown", "import", "bad0", "bad1", "bad2", "ht-missing", "ht-bad", "ht-nouser",
+var c08Faults = []string{"syntax", "unknown", "import", "bad0", "bad1", "bad2", "badon", "ht-missing", "ht-bad", "ht-nouser",
 	"startup", "busy", "busy-multi"}
-var c08Modes = []string{"load", "validate", "reload", "sigusr1"}
+var c08Modes = []string{"load", "validate", "reload", "sigusr1", "execute"}
 
 type c08Feat struct {
 	On   int  // hooks registered by `on`
@@ -1241,7 +1250,9 @@ func c08MkCfg(id int, ft c08Feat, fault string, htf int) *c08Cfg {
 	if fault == "bad0" {
 		c.Effs = append(c.Effs, c08Eff{K: "bad", N: 0})
 	}
-	if ft.On > 0 {
+	if fault == "badon" {
+		c.Effs = append(c.Effs, c08Eff{K: "bad", N: 3})
+	} else if ft.On > 0 {
 		c.Effs = append(c.Effs, c08Eff{K: "on", N: ft.On})
 	}
 	if fault == "startup" {
@@ -1368,11 +1379,11 @@ func c08Random(r *Rand, maxLen int, k int) *c08In {
 				}
 			}
 		}
-		mode := c08Modes[r.Intn(4)]
+		mode := c08Modes[r.Intn(len(c08Modes))]
 		if !live && (mode == "reload" || mode == "sigusr1") {
 			mode = "load"
 		}
-		if last && mode == "validate" {
+		if last && c08DirectivesOnly(mode) {
 			mode = "load"
 		}
 		op := c08Op{Kind: mode, Cfg: c}
@@ -1397,7 +1408,7 @@ func c08Gen(r *Rand, tier string) []interface{} {
 	bare := c08Feat{}
 	for _, m := range c08Modes {
 		for _, f := range c08Faults {
-			if m == "validate" && (f == "startup" || f == "busy" || f == "busy-multi") {
+			if c08DirectivesOnly(m) && (f == "startup" || f == "busy" || f == "busy-multi") {
 				continue // a validation never reaches these stages: the configuration is valid for it
 			}
 			fin := "load"
@@ -1435,7 +1446,7 @@ func c08Gen(r *Rand, tier string) []interface{} {
 func init() {
 	register(&Property{
 		ID: "C08", Imports: "V.Lib V.C08_Model", Judge: "judge", Shard: 40,
-		Rule: "histories of load (casket.Start) / validate / reload (Instance.Restart) / SIGUSR1 attempts and htpasswd-file rewrites, run in-process in a fresh child of the harness with a watchdog per attempt: templates {4 modes} x {syntax error, unknown directive, missing import, bad argument early/mid/late in directive order, htpasswd missing/malformed/without the user, failing startup callback, port in use alone/after another listener} x feature sets (on, log roller, basicauth htpasswd, two listeners), each followed by a valid load/reload using the same files, plus random histories (<= 6 steps quick, <= 10 thorough); every history is also run with the invalid attempts erased; non-trivial = at least one attempt failed and the history ran to its end",
+		Rule: "histories of load (casket.Start) / validate / reload (Instance.Restart) / SIGUSR1 attempts and htpasswd-file rewrites, run in-process in a fresh child of the harness with a watchdog per attempt: templates {load, validate, reload, SIGUSR1, API-driven execute} x {syntax error, unknown directive, missing import, bad argument early/mid/late in directive order, bad `on` line after good ones, htpasswd missing/malformed/without the user, failing startup callback, port in use alone/after another listener} x feature sets (on, log roller, basicauth htpasswd, two listeners), each followed by a valid load/reload using the same files, plus random histories (<= 6 steps quick, <= 10 thorough); every history is also run with the invalid attempts erased; non-trivial = at least one attempt failed and the history ran to its end",
 		Gen:    c08Gen,
 		Decode: func(raw json.RawMessage) (interface{}, error) { in := &c08In{}; return in, json.Unmarshal(raw, in) },
 		Run:    c08Run,
